@@ -19,6 +19,7 @@ func init() {
 			c.run("C10-R6", "ORDER: flavour visible to whoever sees the latch; first stop wins", func(c *Ctx) { c10R6(c); c10R6Reader(c) })
 			c.run("C10-R7", "WHO-CALLS: the stop error travels unwrapped from the stop check to the reporter", c10R7)
 			c.run("C10-R9", "MUST-PASS/GUARD-DOM: Ctrl-C reaches the stop question; its answers map to their actions", c10R9)
+			c.run("C10-R10", "LAUNCH: the stop question and the signal waiters are started with go", c10Launch)
 			c.run("C10-R8", "MUST-PASS/WHO-CALLS: SIGINT/SIGTERM on the server reach the stop entry point", c10R8)
 			c.run("C10-S", "shared with C02: success only after the digest compare and the saved==size gate", func(c *Ctx) { c02Digest(c); c02SavedSize(c) })
 		})
@@ -440,6 +441,44 @@ func c10R5(c *Ctx) {
 			c.bad("checkStop/delete-flavour", c.ipos(r), "on the stopAndDelete edge a different error is returned")
 		}
 	})
+	// truth table of checkStop: not stopped -> nil; stopped -> one of the two stop errors, chosen by the flavour, on EVERY exit
+	atomLoad := func(field string) func(ssa.Value) bool {
+		return func(v ssa.Value) bool {
+			call, _ := callOf(v)
+			return call != nil && isAtomicOnField(call, field, "Load")
+		}
+	}
+	for _, row := range []struct {
+		nm   string
+		as   []assumption
+		want string // "" = nil
+	}{
+		{"running", []assumption{{pred: atomLoad("stopped"), val: false}}, ""},
+		{"stopped", []assumption{{pred: atomLoad("stopped"), val: true}, {pred: atomLoad("stopAndDelete"), val: false}}, "errStopped"},
+		{"stopped+delete", []assumption{{pred: atomLoad("stopped"), val: true}, {pred: atomLoad("stopAndDelete"), val: true}}, "errStoppedAndDeleted"},
+	} {
+		reach := blocksUnder(g, row.as)
+		nRet := 0
+		eachInstr(g, func(in ssa.Instruction) {
+			r, ok := in.(*ssa.Return)
+			if !ok || !reach[in.Block()] {
+				return
+			}
+			nRet++
+			got := "?"
+			if isNilConst(r.Results[0]) {
+				got = ""
+			} else if u, ok := strip(r.Results[0]).(*ssa.UnOp); ok {
+				if gl, ok := u.X.(*ssa.Global); ok {
+					got = gl.Name()
+				}
+			}
+			c.check(got == row.want, "checkStop/answer@"+row.nm, c.ipos(r), "checkStop answers "+map[bool]string{true: "nil", false: row.want}[row.want == ""]+" here", "for '"+row.nm+"' checkStop answers "+map[bool]string{true: "nil (the stop is not seen by the step that asked)", false: got}[got == ""]+" instead of "+map[bool]string{true: "nil", false: row.want}[row.want == ""])
+		})
+		if nRet == 0 {
+			c.bad("checkStop/answer@"+row.nm, c.pos(g.Pos()), "no exit of checkStop is reachable for this case")
+		}
+	}
 	// the stopping client sends err.Error() with a non-trace type: errStoppedAndDeleted is created without trace
 	init := c.fn("init")
 	found := false
